@@ -356,6 +356,17 @@ class _FPCoreCompileInstance(Visitor):
             case Digits():
                 # round(digits(m, e, b)) => digits(m, e, b)
                 return fpc.Digits(e.arg.m, e.arg.e, e.arg.b)
+            case Neg(arg=Decnum() | Integer() | Rational() as lit) if lit.as_rational() > 0:
+                # round(-n) => -n : one rounding of the negative number, which
+                # FPCore spells as a literal too (a zero keeps its own path: the
+                # sign of `-0` is not something a literal carries)
+                match lit:
+                    case Decnum():
+                        return fpc.Decnum('-' + lit.val)
+                    case Integer():
+                        return fpc.Integer(-lit.val)
+                    case _:
+                        return fpc.Rational(-lit.p, lit.q)
             case _:
                 # round(e) => cast(e)
                 arg = self._visit_expr(e.arg, ctx)
